@@ -1,9 +1,22 @@
 """C17 - Starving/DAG mutexes: exclusion, no lost wake-up, condition waits."""
-from lib.units import SeqUnit
+from lib.units import SeqUnit, McUnit, TraceUnit
 
 
 def units(ctx):
+    w = dict(traces=(40, 40), thorough_traces=(300, 60), walks=(100, 25), thorough_walks=(1000, 40))
     return [
-        SeqUnit("syncutils", "StarvingMutex", traces=(40, 40), thorough_traces=(300, 60), walks=(100, 25)),
-        SeqUnit("syncutils", "DAGMutex", traces=(40, 40), thorough_traces=(300, 60), walks=(100, 25)),
+        # all interleavings of the implementation-level model (internal mutex, condition queues, signal windows)
+        McUnit("syncutils", "StarvingMutexImpl", "", name="StarvingMutexImpl:liveness", thorough_cfgkind="thorough", timeout=1800),
+        McUnit("syncutils", "StarvingMutexImpl", "safety", name="StarvingMutexImpl:safety"),
+        # negative controls: the same model with a seeded defect must be refuted by TLC
+        McUnit("syncutils", "StarvingMutexImpl", "nosignal", name="StarvingMutexImpl:ctl-nosignal", expect="NoLostWakeup"),
+        McUnit("syncutils", "StarvingMutexImpl", "ignorew", name="StarvingMutexImpl:ctl-ignorew", expect="Exclusion"),
+        # API-level specs at quiescent points, replayed on the real goroutines (all arrival orders) + random traces
+        SeqUnit("syncutils", "StarvingMutex", **w),
+        SeqUnit("syncutils", "DAGMutex", **w),
+        SeqUnit("syncutils", "CounterWait", **w),
+        SeqUnit("syncutils", "StackWait", **w),
+        # free-running contention, holders discipline validated by TLC
+        TraceUnit("syncutils", "LockHold", "contend", args=["-traces", 20, "-ops", 30],
+                  thorough_args=["-traces", 200, "-ops", 40]),
     ]
